@@ -52,6 +52,10 @@ class TD(typing.TypedDict):
     qty: int
 
 
+# functional syntax: keys that are not identifiers (nor valid parameter names)
+TDF = typing.TypedDict("TDF", {"x-trace": str, "from": int})
+
+
 class Plain:
     a: int
     b: str
@@ -134,6 +138,7 @@ def composites():
         ("Tagged", Tagged, [Tagged("t", Point(1, 1.0), datetime.date(2020, 1, 2))]),
         ("NT", NT, [NT(1, "x"), NT(12, "ab")]),
         ("TD", TD, [TD(name="n", qty=3)]),
+        ("TDF(non-identifier keys)", TDF, [{"x-trace": "abc", "from": 4}]),
         ("Plain", Plain, [Plain(1, "b")]),
         ("list[Point]", list[Point], [[Point(1, 2.0), Point(3, 4.0)]]),
         ("dict[str,Point]", dict[str, Point], [{"p": Point(1, 2.0)}]),
